@@ -397,6 +397,7 @@ func (ndb *nodeDB) deleteFromPruning(key []byte) error {
 		// if the nodeDB is committing, the pruning process will be done after the committing.
 		<-ndb.chCommitting
 	}
+	verifPoint("prune:after-committing-check")
 
 	ndb.mtx.Lock()
 	defer ndb.mtx.Unlock()
@@ -771,6 +772,7 @@ func (ndb *nodeDB) deleteVersionsTo(toVersion int64) error {
 		if err := ndb.deleteVersion(version, rootkeyCache); err != nil {
 			return err
 		}
+		verifPoint("prune:version-deleted")
 		ndb.resetFirstVersion(version + 1)
 	}
 
